@@ -110,6 +110,26 @@ static void grid_cases(Harness &H, const char *tn, const std::vector<T> &alpha, 
       H.end();
     }
   });
+  // iterator range over a WIDER type (the grid stores float): what must be strictly increasing are the stored points
+  if constexpr (std::is_same_v<T, double>) {
+    const double u = std::nextafter(1.0, 2.0);
+    const std::vector<double> wide = {-1.0, -0.0, 0.0, 1.0, u, 1.0 + 1e-12, 1.5, 16777216.0, 16777217.0, 16777218.0, 1e300, std::numeric_limits<double>::quiet_NaN()};
+    all_seqs<double>(wide, 3, [&](const std::vector<double> &v) {
+      if (!H.take()) return;
+      H.begin(std::string("grid<float>;from-double-range;") + seqstr(v));
+      std::vector<float> stored(v.begin(), v.end());
+      bool valid = strictly_increasing(stored);
+      std::unique_ptr<Grid<float>> g;
+      Outcome o = attempt([&] { g.reset(new Grid<float>(v.begin(), v.end())); });
+      judge(H, "Grid", valid, o);
+      if (g && valid)
+        for (size_t i = 0; i < stored.size(); i++)
+          if (!((*g)[i] == stored[i])) H.fail("Grid:content", "content differs");
+      H.cls(valid ? "Grid:converting-range:valid" : "Grid:converting-range:invalid");
+      if (valid) H.nontriv();
+      H.end();
+    });
+  }
   // null shared pointer
   if (H.take()) {
     H.begin(std::string("grid<") + tn + ">;nullptr");
